@@ -199,10 +199,16 @@ def _file_checks(ss, tr, sc, d):
             out["memplot_error"] = "%s: %s" % (type(ex).__name__, str(ex)[:200])
     # --- replay from the exported csv -----------------------------------------------------
     if sc.get("replay") and out["files_exist"] and len(rows) > 1 and os.path.isfile(os.path.join(d, "export.csv")):
+      # the replaying system has the configuration of the run, or its own coarser step: the rows of the file are what is replayed
+      for coarse in (False, True):
+        if out.get("replay_ok") is False:
+            break
         try:
             sc2 = dict(sc)
             sc2["load_kw"] = {}
             sc2["events"] = []
+            if coarse:
+                sc2["tds"] = dict(sc.get("tds", {}), tstep=4.0 * float(tds.config.tstep), fixt=1)
             ss2 = tdsdrv.build_system(sc2)
             ss2.PFlow.run()
             r2 = ss2.TDS.run(no_summary=True, from_csv=os.path.join(d, "export.csv"))
@@ -223,6 +229,9 @@ def _file_checks(ss, tr, sc, d):
                     close = [bool(np.max(np.abs(v2[j] - exp[m_, 1:]) / (1 + np.abs(exp[m_, 1:]))) <= 1e-10) for m_ in range(first[j], keep[j] + 1)]
                     ok = any(close)
             out["replay_ok"] = bool(ok)
+            if not ok:
+                out["replay_error"] = "replay on a system with %s: %d rows for %d kept rows" % (
+                    "a coarser step of its own" if coarse else "the configuration of the run", len(t2), len(keep))
         except Exception as ex:
             out["replay_ok"] = False
             out["replay_error"] = "%s: %s" % (type(ex).__name__, str(ex)[:200])
